@@ -71,7 +71,7 @@ PROPS["C15"] = {
              "(c) with a transient / persistent storage failure at every such k. Oracles: the call returns (nothing parked + live context + not returned = hang); storage calls <= ((f+1)(|rw|+2))^(d+1); "
              "after cancellation the call returns with no further storage call released and zero simulated time; after return + context release the bubble drains (synctest deadlock detection = goroutine leak, classified by blocked frame); worker process survives. "
              "non-trivial = reference derivation touches >=2 hops/rewrite edges; distinct = hash of (config, tuples, query, depth, width)."),
-    "probes": ["fault_cancel", "fault_transient", "fault_persistent", "probe_rewrite_cycle", "probe_wider_than_limit", "probe_node_with_1000_plus_subject_sets", "probe_drained_after_return"],
+    "probes": ["fault_cancel", "fault_transient", "fault_persistent", "probe_rewrite_cycle", "probe_wider_than_limit", "probe_node_with_1000_plus_subject_sets", "probe_batch_entry_point", "probe_drained_after_return"],
     "real": REAL_E, "stub": STUB_E,
     "fault_kinds": {"cancel": "request context cancelled between two storage calls", "transient": "k-th storage call fails", "persistent": "k-th and all later storage calls fail", "conflict": "k-th storage call fails with sqlcon.ErrConcurrentUpdate (retryable kind)"},
     "assumptions": ["the bound B is deliberately loose: it catches unbounded growth, not constant factors", "when a result and the cancellation are ready in the same quiescence round, either outcome is accepted (Go's select is not seedable)"],
@@ -184,7 +184,7 @@ PROPS["C16"] = {
              "plus up to 260 generated names, and a batch of 1..250 tuples with repeats and the same string as object and subject. Checked: Mapper.FromTuple->ToTuple position by position, Map(s)=Map(s') <=> s=s', MapUUIDsToStrings with repeated ids, FromQuery->ToQuery, ToTree; "
              "then the batch is written through gRPC transact / REST patch / REST create and listed back (page sizes 0,1,100,101,250; REST and gRPC), listed by an adversarial object name, and expanded; strings must come back exactly, in the right fields. "
              "mode 'faults': one of the first 4 SQL statements of the listing fails (I/O): the read may fail, it may not return an empty or foreign string. non-trivial = >=3 distinct names; distinct = hash of the batch."),
-    "probes": ["probe_over_100_distinct_names", "probe_batch_over_100", "probe_repeats_in_batch"],
+    "probes": ["probe_over_100_distinct_names", "probe_listing_after_partial_delete", "probe_batch_over_100", "probe_repeats_in_batch"],
     "real": REAL_S, "stub": STUB_S,
     "fault_kinds": {"io": "a SQL statement of the listing (tuple query or mapping lookup) returns an I/O error"},
     "assumptions": ["names are valid UTF-8 without NUL (JSON and protobuf cannot carry anything else)"],
